@@ -123,7 +123,7 @@ Theorem reassembly_any_order_once mtu xid conv st data p :
   Permutation p (send_transfer (Some mtu) xid data) ->
   let fin := fold_left (recv_frame conv) p st in
   r_queue fin = r_queue st ++ [(r_next st, data)]
-  /\ r_signals fin = r_signals st ++ [(r_next st, blen data)]
+  /\ r_signals fin = r_signals st ++ [(r_next st, blen data, c_peer conv)]
   /\ plookup (conv, xid) (r_prog fin) = None
   /\ (forall p1 p2, p = p1 ++ p2 -> p2 <> [] ->
         r_queue (fold_left (recv_frame conv) p1 st) = r_queue st
@@ -133,10 +133,10 @@ Proof. intros Hok. apply reassembly_h. exact Hok. Qed.
 Example reassembly_nonvacuous :
   let frames := send_transfer (Some 30) 7 (mkdata 1 40) in
   send_okb 30 7 (mkdata 1 40) = true
-  /\ plookup (1, 7) (r_prog rx_init) = None
-  /\ queued (fold_left (recv_frame 1) [nth 2 frames []; nth 0 frames []; nth 3 frames []; nth 1 frames []] rx_init)
+  /\ plookup (chan1, 7) (r_prog rx_init) = None
+  /\ queued (fold_left (recv_frame chan1) [nth 2 frames []; nth 0 frames []; nth 3 frames []; nth 1 frames []] rx_init)
      = [mkdata 1 40]
-  /\ queued (fold_left (recv_frame 1) [nth 2 frames []; nth 0 frames []; nth 3 frames []] rx_init) = [].
+  /\ queued (fold_left (recv_frame chan1) [nth 2 frames []; nth 0 frames []; nth 3 frames []] rx_init) = [].
 Proof. vm_compute. repeat split. Qed.
 
 (** * Noted behaviour outside the quantifier of C20 (peer-crafted input,
@@ -148,9 +148,9 @@ Proof. vm_compute. repeat split. Qed.
 Theorem note_end_index_zero_never_completes :
   let f := seg_frame (xfer_hints 3) 9 (0, [1; 2; 3], true) in
   decode_frame f = Some (mkFrame [mk_seg (xfer_hints 3) true 9 0 [1; 2; 3]] [])
-  /\ queued (recv_frame 1 rx_init f) = []
-  /\ map (fun e => (fst e, x_end (snd e), x_segs (snd e))) (r_prog (recv_frame 1 rx_init f))
-     = [((1, 9), Some 0, [(0, [1; 2; 3])])].
+  /\ queued (recv_frame chan1 rx_init f) = []
+  /\ map (fun e => (fst e, x_end (snd e), x_segs (snd e))) (r_prog (recv_frame chan1 rx_init f))
+     = [((chan1, 9), Some 0, [(0, [1; 2; 3])])].
 Proof. vm_compute. repeat split. Qed.
 
 (** A zero-length bundle is sent as [02 00 00 00]; the receiver dissects no
@@ -159,12 +159,12 @@ Theorem note_zero_length_bundle_not_queued :
   send_transfer None 0 [] = [[2; 0; 0; 0]]
   /\ decode_frame [2; 0; 0; 0] = Some (mkFrame [mk_bundle []] [])
   /\ view (mk_bundle []) = COther
-  /\ queued (recv_frame 1 rx_init [2; 0; 0; 0]) = [].
+  /\ queued (recv_frame chan1 rx_init [2; 0; 0; 0]) = [].
 Proof. vm_compute. repeat split. Qed.
 
 (** A transfer message without data raises in [_recv_msg]. *)
 Theorem note_empty_segment_raises :
-  snd (recv_frame_r 1 rx_init (seg_frame [] 9 (1, [], false))) = true.
+  snd (recv_frame_r chan1 rx_init (seg_frame [] 9 (1, [], false))) = true.
 Proof. vm_compute. reflexivity. Qed.
 
 (** An MTU that leaves no room for data ([mtu <= 18]) with a bundle that does
